@@ -58,11 +58,14 @@ func (Prop) Assumptions() []string {
 	return []string{
 		"inputs further than two substitutions / one structural edit away from a seed and longer than 3 bytes are not explored; recursion depth is probed to 10^4 only",
 		"coverage-guided fuzzing named in the property's quantifier is sampling and is deliberately not used",
-		"documented crypto/cipher preconditions whose sizes the caller controls (nonce length of AEAD.Open, block size given to padding constructors) are respected; sizes that come out of the hostile artefact (IV, ciphertext length) are not",
-		"seeds are built by the library under a deterministic crypto/rand.Reader replacement; RSA keys and the PKCS#7 SignedData carrying a signing-time attribute are embedded constants produced once by `c13 gen-embedded`",
-		"cost parameters (iteration counts, scrypt N/r/p, RSA modulus size) are never mutated upward by substitution; DER edits can raise an iteration count to at most 0x2ff and scrypt N to 4096",
-		"configurations: amd64 default dispatch and -tags purego; arm64/ppc64le/s390x assembly is not covered",
-		"private-key holders' non-hostile arguments (uid, password, recipient key, trust pool, verification time) are fixed valid values",
+		"documented crypto/cipher preconditions whose sizes the caller controls (nonce length of AEAD.Open, block size given to a padding constructor: 8, 16, 32 only) are respected; sizes that come out of the hostile artefact (IV, ciphertext length, key length) are not",
+		"seeds are built by the library under a deterministic crypto/rand.Reader replacement and are bit-identical in the default and purego builds; the RSA keys, the two PKCS#7 SignedData with a signing-time attribute (pkcs7 stamps time.Now()) and one SM2-over-NIST-P256 signature (its signer cannot run under -tags purego because the standard library's p256 Inverse is unimplemented there) are embedded constants produced once by `c13 gen-embedded`",
+		"KDF cost parameters (iteration counts, scrypt N/r/p, RSA modulus size) are never mutated upward by substitution; DER edits can raise an iteration count to at most 0x2ff and scrypt N to 4096",
+		"configurations: amd64 default dispatch and -tags purego; arm64/ppc64le/s390x assembly is not covered; guard pages detect reads/writes past the end of the input buffer only (not past internally allocated buffers)",
+		"the non-hostile arguments (uid, hid, password, recipient key and certificate, trust pool, verification time 2026-06-01, additional data, nonce) are fixed valid values; hostile values of two arguments at once are not combined",
+		"follow-up methods are driven only where they are part of processing the hostile artefact; re-marshalling an SM9 user key that was (legitimately) encoded without its master public key dereferences nil and is documented API usage, not driven",
+		"sm2.KeyExchange.ConfirmResponder(rB *ecdsa.PublicKey, sB []byte), sm2.Verify/sm9.Verify with *big.Int arguments and all block-mode decrypters of package cipher (XTS, HCTR, BC, OFBNLF, ECB: documented panicking preconditions) are outside the enumerated space",
+		"a seed the library under test cannot build, or rejects, is reported as measured evidence (seeds_unbuildable / seeds_not_accepted), not as a C13 violation",
 	}
 }
 
